@@ -398,6 +398,20 @@ def run(ck):
         exh = [t for k, t in enumerate(exh) if k < 60 or k % 3 == ck.seed % 3]
     trees = FIXED_TREES + exh + [rand_tree(rng, rng.randint(0, 4)) for _ in range(30000 if thorough else 1500)]
     trees += [rand_tree(rng, rng.randint(5, 6)) for _ in range(2000 if thorough else 60)]
+    # large documents: hundreds of containers in one document, wide and (up to serde_json's own nesting limit of 128) deep
+    # (seed C17-w6-m1: a "depth" guard of the encoder that counted every container met so far stopped following handles
+    # after the 128th container of a document)
+    def leaf_(i_):
+        return rng.choice([("#", str(i_), str(i_)), ("s", "v%d" % i_), ("b", True), ("n",)])
+    for n_ in (100, 129, 130, 200, 300) + ((1000, 3000) if thorough else (700,)):
+        trees.append(("a", [("a", [leaf_(i_)]) for i_ in range(n_)]))
+        trees.append(("o", [("k%d" % i_, ("o", [("id", leaf_(i_)), ("tags", ("a", [("s", "t")]))], "")) for i_ in range(n_ // 2)], ""))
+        trees.append(("a", [rand_tree(rng, 2) for _ in range(n_)]))
+    for d_ in (40, 100, 120):
+        t_ = ("s", "bottom")
+        for i_ in range(d_):
+            t_ = ("a", [("#", str(i_), str(i_)), t_]) if i_ % 2 else ("o", [("in", t_), ("n", ("#", str(i_), str(i_)))], "")
+        trees.append(t_)
     n_off_gen = sum(1 for t in trees if not tree_in_domain(t))
     trees = [t for t in trees if tree_in_domain(t)] + OFF_DOMAIN_TREES
     jl = ["%s\t%s" % (enc_str(tree_text(t)), " ".join(tree_wire(t, []))) for t in trees]
